@@ -588,6 +588,13 @@ func expandAtomConj(a Atom, depth int) []string {
 		}
 		break
 	}
+	if call, fi, isF := structFieldOfCall(v); isF {
+		// a flag of a struct of decisions a side-effect-free helper returned (want := c.columnsOf(ent); if want.time):
+		// it stands for what the helper stores into that field, in the caller's terms
+		if conj, ok := fieldBoolConj(call, fi, pol, depth); ok {
+			return conj
+		}
+	}
 	if ph, isPhi := v.(*ssa.Phi); isPhi {
 		if dnf, ok := phiDNF(ph, pol, depth); ok {
 			if len(dnf) == 1 {
@@ -1094,4 +1101,111 @@ func smallGenericHelper(h *ssa.Function) bool {
 		}
 	}
 	return true
+}
+
+// structFieldOfCall: v reads field #fi of the struct value a call returned - directly, or through the local the result
+// was stored in (stored once).
+func structFieldOfCall(v ssa.Value) (call *ssa.Call, fi int, ok bool) {
+	switch x := v.(type) {
+	case *ssa.Field:
+		if c, isC := x.X.(*ssa.Call); isC {
+			return c, x.Field, true
+		}
+	case *ssa.UnOp:
+		if x.Op != token.MUL {
+			return nil, 0, false
+		}
+		fa, isFA := x.X.(*ssa.FieldAddr)
+		if !isFA {
+			return nil, 0, false
+		}
+		a, isA := fa.X.(*ssa.Alloc)
+		if !isA || a.Referrers() == nil {
+			return nil, 0, false
+		}
+		var st *ssa.Store
+		for _, r := range *a.Referrers() {
+			switch y := r.(type) {
+			case *ssa.Store:
+				if y.Addr == ssa.Value(a) {
+					if st != nil {
+						return nil, 0, false
+					}
+					st = y
+				}
+			case *ssa.FieldAddr:
+				// only read through: no store into a field of the local
+				if y.Referrers() != nil {
+					for _, rr := range *y.Referrers() {
+						if s2, isS := rr.(*ssa.Store); isS && s2.Addr == ssa.Value(y) {
+							return nil, 0, false
+						}
+					}
+				}
+			case *ssa.DebugRef:
+			default:
+				return nil, 0, false
+			}
+		}
+		if st == nil {
+			return nil, 0, false
+		}
+		if c, isC := st.Val.(*ssa.Call); isC {
+			return c, fa.Field, true
+		}
+	}
+	return nil, 0, false
+}
+
+// fieldBoolConj: the conjunction (in the caller's terms) under which boolean field #fi of the struct the helper
+// returns equals want, when the helper is side-effect free, builds the struct once and stores the field once.
+func fieldBoolConj(c *ssa.Call, fi int, want bool, depth int) ([]string, bool) {
+	callee := c.Call.StaticCallee()
+	if callee == nil || depth > 3 || !curProgRoot(callee) || len(callee.Blocks) == 0 || callee.Signature.Results().Len() != 1 || !sideEffectFree(callee, 0) {
+		return nil, false
+	}
+	rets := Returns(callee)
+	if len(rets) != 1 {
+		return nil, false
+	}
+	ld, ok := rets[0].Results[0].(*ssa.UnOp)
+	if !ok || ld.Op != token.MUL {
+		return nil, false
+	}
+	a, ok := ld.X.(*ssa.Alloc)
+	if !ok || a.Referrers() == nil {
+		return nil, false
+	}
+	var val ssa.Value
+	n := 0
+	for _, r := range *a.Referrers() {
+		fa, isFA := r.(*ssa.FieldAddr)
+		if !isFA || fa.Field != fi || fa.Referrers() == nil {
+			continue
+		}
+		for _, rr := range *fa.Referrers() {
+			if st, isS := rr.(*ssa.Store); isS && st.Addr == ssa.Value(fa) {
+				val = st.Val
+				n++
+				if len(GuardsOfBlock(st.Block())) != 0 {
+					return nil, false // a conditional store: not one decision
+				}
+			}
+		}
+	}
+	if n != 1 || val == nil {
+		return nil, false
+	}
+	if b, isB := types.Unalias(val.Type()).Underlying().(*types.Basic); !isB || b.Kind() != types.Bool {
+		return nil, false
+	}
+	env := map[*ssa.Parameter]string{}
+	for i, arg := range c.Call.Args {
+		if i < len(callee.Params) {
+			env[callee.Params[i]] = Desc(arg)
+		}
+	}
+	descEnv = append(descEnv, env)
+	defer func() { descEnv = descEnv[:len(descEnv)-1] }()
+	return expandAtomConj(Atom{val, want}, depth+1), true
 }
